@@ -10,6 +10,7 @@ from typing import (
     cast,
     dataclass_transform,
     final,
+    get_args,
     get_origin,
 )
 from weakref import WeakValueDictionary
@@ -121,9 +122,21 @@ class State(metaclass=StateMeta):
             case argument:
                 type_arguments = (argument,)
 
-        if any(isinstance(argument, TypeVar) for argument in type_arguments):  # pyright: ignore[reportUnnecessaryIsInstance]
-            # if we got unfinished type treat it as an alias instead of resolving
+        if any(
+            isinstance(argument, TypeVar) or getattr(argument, "__parameters__", None)  # pyright: ignore[reportUnnecessaryIsInstance]
+            for argument in type_arguments
+        ):
+            # if we got unfinished type (also nested within an argument)
+            # treat it as an alias instead of resolving
             return cast(type[Self], GenericAlias(cls, type_arguments))
+
+        # resolve finished aliases of generic states to have the same type for the same arguments
+        type_arguments = tuple(
+            get_origin(argument)[get_args(argument)]
+            if isinstance(argument, GenericAlias) and isinstance(get_origin(argument), StateMeta)
+            else argument
+            for argument in type_arguments
+        )
 
         assert len(type_arguments) == len(  # nosec: B101
             cls.__type_params__
